@@ -35,6 +35,7 @@ CONSTANTS
   TeamMode,       \* wiring of people.team -> teams  : off | idx | idxNull | idxCascade | conNone | conNoneNull | conCascade | conCascadeNull
   ChildExtended,  \* staff declared Extended()
   LinksViaEntity, \* people.teams is also written by Create/Update of a person (SetLinkedIds)
+  SysScope,       \* where the system-entity constraint is registered: "parent" (guards every entity) | "child" (guards what the child store handles)
   ChildFeatures   \* constraints and link sets registered on the *child* store: teams.chief -> staff (nullable fk index, back-reference set
                   \* staff.chiefOf: a child-store constraint that refuses deletes) and the link collection staff.squads <-> teams.squadStaff
 
@@ -236,7 +237,7 @@ Indexed(d, isCreate, id, old, new, oldX, newX, lt) ==
 CreateOp(d, sysctx, via, id, p, x, lt, veto) ==
   LET exists == IF via = "people" THEN Present(d, id) ELSE HasExt(d, id)
       ix     == Indexed(d, TRUE, id, p, p, NoEnt, x, IF LinksViaEntity THEN lt ELSE NoLt)
-      errs   == ix.errs \cup (IF p.sys /\ ~sysctx THEN {"system"} ELSE {}) \cup (IF veto THEN {"veto"} ELSE {})
+      errs   == ix.errs \cup (IF p.sys /\ ~sysctx /\ (SysScope = "parent" \/ via = "staff") THEN {"system"} ELSE {}) \cup (IF veto THEN {"veto"} ELSE {})
   IN IF exists THEN Res(d, {"exists"}, << >>, NIL)
      ELSE IF errs # {} THEN Res(d, errs, << >>, NIL)
      ELSE Res(ix.db, {}, EvsFor("created", id, p, x), NIL)
@@ -261,7 +262,7 @@ UpdateOp(d, sysctx, via, id, p, x, lt, fields, veto) ==
                                grade |-> IF "grade" \in fields THEN x.grade ELSE oldX.grade ]
                         ELSE oldX                                \* routed from the parent: child fields keep their stored values
            ix   == Indexed(d, FALSE, id, old, new, oldX, newX, IF LinksViaEntity /\ "teams" \in fields THEN lt ELSE NoLt)
-           errs == ix.errs \cup (IF old.sys /\ ~sysctx THEN {"system"} ELSE {}) \cup (IF veto THEN {"veto"} ELSE {})
+           errs == ix.errs \cup (IF old.sys /\ ~sysctx /\ (SysScope = "parent" \/ viaChild) THEN {"system"} ELSE {}) \cup (IF veto THEN {"veto"} ELSE {})
        IN IF errs # {} THEN Res(d, errs, << >>, NIL)
           ELSE Res(ix.db, {}, EvsFor("updated", id, new, newX), NIL)
 
@@ -292,7 +293,7 @@ DeletePersonErrs(d, sysctx, id, veto) ==
               ELSE {}
   IN (IF refs # {} THEN {"refExists"} ELSE {})
      \cup (IF d.backChief[id] # {} THEN {"refExists"} ELSE {})       \* the delete constraint registered on the child store
-     \cup (IF p.sys /\ ~sysctx THEN {"system"} ELSE {})
+     \cup (IF p.sys /\ ~sysctx /\ (SysScope = "parent" \/ HasExt(d, id)) THEN {"system"} ELSE {})
      \cup (IF p.roles \cap BadRoles # {} THEN {"storage"} ELSE {})
      \cup (IF veto THEN {"veto"} ELSE {})
 
